@@ -46,6 +46,10 @@ ASSUMPTIONS = [
     "with want_recv=1, want_send=0; an event still pending afterwards is counted as `undrained` (inconclusive), not "
     "reported as a violation",
     "a SyncFlag/Mailbox with delays used from one context is refused by cohdl (documented assertion): rejected",
+    "unguarded clear (configurations `uclear`): SyncFlag.clear docstring 'This has no effect when it is already "
+    "clear' - a clear() issued in a clock in which the consumer observes the flag as clear (on an empty flag, one clock "
+    "after a receive, coinciding with a new set that is not yet visible) must neither create nor destroy an event; "
+    "issued while the consumer observes the flag as set it consumes the event",
     "coroutine timing itself (when an await resumes) belongs to property C01; the coro-style monitor only uses the "
     "order of the exported pulses",
 ]
@@ -53,11 +57,14 @@ LEVEL = "exploration"
 
 
 # ------------------------------------------------------------------------- configurations
-def _cfg(comp, tx, rx, topo, style, send, order="obs_first", form=None, first="prod"):
+def _cfg(comp, tx, rx, topo, style, send, order="obs_first", form=None, first="prod", uclear=False):
     if form is None:
         form = "none" if (tx, rx) == (0, 0) else "txrx"
-    return {"comp": comp, "tx": tx, "rx": rx, "form": form, "topo": topo, "style": style, "send": send, "order": order,
-            "first": first}
+    c = {"comp": comp, "tx": tx, "rx": rx, "form": form, "topo": topo, "style": style, "send": send, "order": order,
+         "first": first}
+    if uclear:
+        c["uclear"] = True
+    return c
 
 
 def all_cfgs(maxd=3):
@@ -72,6 +79,12 @@ def all_cfgs(maxd=3):
             out.append(_cfg("flag", tx, rx, "two", "coro", "guarded"))
             out.append(_cfg("mailbox", tx, rx, "two", "plain", "guarded"))
             out.append(_cfg("mailbox", tx, rx, "two", "coro", "guarded"))
+            # consumer with clear() calls that are not guarded by is_set() (also on a clear flag)
+            out.append(_cfg("flag", tx, rx, "two", "plain", "guarded", uclear=True))
+            out.append(_cfg("flag", tx, rx, "two", "plain", "always", "act_first", uclear=True))
+            out.append(_cfg("mailbox", tx, rx, "two", "plain", "guarded", uclear=True))
+            out.append(_cfg("flag", tx, rx, "two", "coro", "guarded", uclear=True))
+            out.append(_cfg("mailbox", tx, rx, "two", "coro", "guarded", uclear=True))
             if tx == rx and tx:
                 out.append(_cfg("flag", tx, rx, "two", "plain", "always", form="delay"))
                 out.append(_cfg("mailbox", tx, rx, "two", "plain", "guarded", form="delay"))
@@ -80,6 +93,9 @@ def all_cfgs(maxd=3):
     out.append(_cfg("flag", 0, 0, "same", "plain", "guarded"))
     out.append(_cfg("mailbox", 0, 0, "same", "plain", "guarded"))
     out.append(_cfg("flag", 0, 0, "same", "plain", "guarded", first="cons"))
+    out.append(_cfg("flag", 0, 0, "same", "plain", "guarded", uclear=True))
+    out.append(_cfg("flag", 0, 0, "same", "plain", "always", first="cons", uclear=True))
+    out.append(_cfg("mailbox", 0, 0, "same", "plain", "guarded", uclear=True))
     # delays in one context: documented (assertion text) to be refused
     for (tx, rx) in [(1, 0), (0, 1), (2, 0), (0, 2), (3, 0), (0, 3), (1, 1), (2, 3)]:
         if max(tx, rx) <= maxd:
@@ -93,7 +109,7 @@ def all_cfgs(maxd=3):
 def plan(tier):
     cfgs = all_cfgs()
     nsh = 16 if tier == "quick" else 32
-    per_cfg = 36 if tier == "quick" else 500
+    per_cfg = 28 if tier == "quick" else 400
     shards = []
     for i in range(nsh):
         mine = cfgs[i::nsh]
@@ -118,9 +134,10 @@ def _sched():
         st.tuples(st.just("rand"), st.lists(st.tuples(st.booleans(), st.booleans()), min_size=1, max_size=10)),
     )
     pay = st.lists(st.integers(0, 7), min_size=1, max_size=7)
+    fcl = st.lists(st.integers(0, 3), min_size=1, max_size=9)  # force_clr in the clocks where the cycled value is 0
 
     def expand(args):
-        segs, pv = args
+        segs, pv, fv = args
         out = []
         for kind, x in segs:
             if kind == "rand":
@@ -130,10 +147,10 @@ def _sched():
             else:
                 steps = [{"both": (1, 1), "send": (1, 0), "recv": (0, 1), "idle": (0, 0)}[kind]] * x
             for ws, wr in steps:
-                out.append([ws, wr, pv[len(out) % len(pv)]])
+                out.append([ws, wr, pv[len(out) % len(pv)], int(fv[len(out) % len(fv)] == 0)])
         return out[:80]
 
-    return st.tuples(st.lists(seg, min_size=1, max_size=12), pay).map(expand)
+    return st.tuples(st.lists(seg, min_size=1, max_size=12), pay, fcl).map(expand)
 
 
 def strategy(shard):
@@ -147,7 +164,7 @@ def enumerate(shard):  # noqa: A001 - name fixed by the module contract
 
 
 # ------------------------------------------------------------------------- driver
-_ZERO = {"clk": 0, "want_send": 0, "want_recv": 0, "payload": 0}
+_ZERO = {"clk": 0, "want_send": 0, "want_recv": 0, "payload": 0, "force_clr": 0}
 
 
 def _sig(cfg, obs):
@@ -166,6 +183,8 @@ class _Driver:
         mb = cfg["comp"] == "mailbox"
         self.coro = cfg["style"] == "coro"
         self.mon = CoroMonitor(mb) if self.coro else PlainMonitor(mb)
+        self.forced = 0
+        self.forced_on_clear = 0
 
     def state(self):
         return self.mon.state()
@@ -174,16 +193,25 @@ class _Driver:
         self.mon.set_state(s)
 
     def step(self, sim, action):
-        ws, wr, pay = action
-        sim.clock("clk", want_send=ws, want_recv=wr, payload=pay)
+        ws, wr, pay = action[:3]
+        fc = action[3] if len(action) > 3 else 0
+        sim.clock("clk", want_send=ws, want_recv=wr, payload=pay, force_clr=fc)
         g = sim.get
         pclear, set_, cset, clr, pout = g("o_pclear"), g("o_set"), g("o_cset"), g("o_clr"), g("o_payload")
+        fclr = g("o_fclr")
+        if fclr:
+            self.forced += 1
+            if not (cset if not self.coro else False):
+                self.forced_on_clear += 1
         if None in (pclear, set_, cset, clr) or (clr and pout is None):
             return "undefined", [("undefined", f"undefined output: pclear={pclear} set={set_} cset={cset} clr={clr} payload={pout}")]
         if self.coro:
             bad = self.mon.step(pay, wr, set_, clr, pclear, pout)
         else:
-            bad = self.mon.step(pay, pclear, set_, cset, clr, pout)
+            # an unguarded clear() issued while the consumer sees the flag set consumes the event (no payload read);
+            # issued while it sees the flag clear it must change nothing (not reported to the monitor)
+            bad = self.mon.step(pay, pclear, set_, cset, int(bool(clr) or bool(fclr and cset)), pout,
+                                check_payload=bool(clr))
         return "run", bad
 
     def pending(self):
@@ -214,6 +242,8 @@ def check(case):
             acts = [(0, 0, 0), (0, 1, 0), (1, 0, a), (1, 0, c), (1, 1, a), (1, 1, c)]
         else:
             acts = [(0, 0, 0), (0, 1, 0), (1, 0, 0), (1, 1, 0)]
+        if cfg.get("uclear") and cfg["style"] == "plain":
+            acts = [x + (fc,) for x in acts for fc in (0, 1)]
         res = explore(sim, drv, acts, zero, case["cap"])
         if res["failure"]:
             path, _when, bad = res["failure"]
@@ -257,6 +287,11 @@ def check(case):
     m = drv.mon
     out.counters["handovers"] = m.handovers
     out.counters["ineffective_sets"] = m.ineffective_sets
+    if cfg.get("uclear"):
+        out.counters["unguarded_clears"] = drv.forced
+        out.counters["unguarded_clears_on_clear_flag"] = drv.forced_on_clear
+        if drv.forced_on_clear:
+            out.labels.append("clear_on_clear_flag")
     if m.ineffective_sets:
         out.labels.append("set_while_set")
     if m.tight:
@@ -275,13 +310,14 @@ def _simerror(out, cfg, key, e):
 def _cfg_name(cfg):
     return (f"{'Mailbox' if cfg['comp'] == 'mailbox' else 'SyncFlag'}/tx{cfg['tx']}rx{cfg['rx']}"
             f"{'(delay=)' if cfg['form'] == 'delay' else ''}/{cfg['topo']}/{cfg['style']}/{cfg['send']}/{cfg['order']}"
-            f"{'/cons_first' if cfg.get('first') == 'cons' else ''}")
+            f"{'/cons_first' if cfg.get('first') == 'cons' else ''}{'/unguarded_clear' if cfg.get('uclear') else ''}")
 
 
 def view(case):
     v = {"config": _cfg_name(case["cfg"]), "mode": case["mode"]}
     if case["mode"] == "sched":
-        v["schedule"] = " ".join(("S" if ws else "") + ("R" if wr else "") + (str(p) if ws else "") or "." for ws, wr, p in case["sched"])
+        v["schedule"] = " ".join(("S" if x[0] else "") + ("R" if x[1] else "") + (str(x[2]) if x[0] else "")
+                                 + ("C" if len(x) > 3 and x[3] else "") or "." for x in case["sched"])
     else:
         v["cap"] = case["cap"]
     v["wrapper_source"] = G.render(case["cfg"])
